@@ -1,8 +1,8 @@
-(* Properties_C14.v — browser notifications form well-formed life cycles for its own type only (partial). *)
-From QV Require Import Base Fields SrcFacts Msg SrcDecisions Cache Sim Browser BrowserSpec BrowserProofs.
+(* Properties_C14.v — browser notifications form well-formed life cycles for its own type only. *)
+From QV Require Import Base Fields SrcFacts Msg SrcDecisions Cache Sim SimProofs Browser BrowserSpec BrowserProofs BrowserInv.
 Local Open Scope Z_scope.
 
-(* PARTIAL (handler level).  updateService emits at most one notification: serviceAdded iff the instance is not in the map
+(* Handler level (the run-level statements follow below).  updateService emits at most one notification: serviceAdded iff the instance is not in the map
    of added services, serviceUpdated only for an instance in the map whose stored description differs (Service::operator==,
    which compares every member - tie to service.cpp below), and in both cases stores the reported description; it reports
    only instances whose type equals the browser's type, unless the browser enumerates all types.  A removal names the
@@ -39,3 +39,60 @@ Print Assumptions C14_removal_names_stored_partial.
 Theorem C14_equality_compares_every_field : forallb (fun f => existsb (sfield_eqb f) service_eq_fields) all_sfields = true.
 Proof. exact service_eq_all_fields. Qed.
 Print Assumptions C14_equality_compares_every_field.
+
+(* ---- the run-level statement ----
+   [LC ty j p es p']: the notifications of browser j among the effects es form, starting from the ghost map p
+   (instance -> description as last reported) and ending in p', well-formed life cycles: serviceAdded only for an
+   instance not currently added; serviceUpdated only for one currently added, and different (Service::operator==) from
+   the last report; serviceRemoved only for one currently added, naming it as last reported; every reported service is
+   of the browser's type ty unless the browser enumerates all types.  The instance of a report is a name k that splits
+   ([names]) into the reported name and type; for every name containing a dot - every name decoded from the wire - k is
+   name ++ "." ++ type (C14_instance_is_name_dot_type). *)
+
+(* any world - any number of browsers of any types, private or shared caches, any cache content - in which browser j has
+   nothing added (as when it is created), followed through ANY sequence of handler invocations at any instants: messages,
+   cache and browser timers, API calls creating further browsers and caches *)
+Theorem C14_life_cycles evs w j b :
+  nth_error (w_browsers w) j = Some b -> b_services b = [] ->
+  let '(w', es) := world_life evs w in
+  exists p b', LC (b_type b) j [] es p /\ nth_error (w_browsers w') j = Some b' /\ b_type b' = b_type b /\
+               R (b_type b) p (b_services b').
+Proof. exact (browser_life_cycles evs w j b). Qed.
+Print Assumptions C14_life_cycles.
+
+(* the same for the signal outputs of every script run by the virtual-time kernel (the executable model that the
+   correspondence check compares with the real Browser) *)
+Theorem C14_life_cycles_kernel fuel ops (s : sim world) j b :
+  nth_error (w_browsers (s_st s)) j = Some b -> b_services b = [] ->
+  exists p, LC (b_type b) j [] (out_sigs (snd (run_outs world bapi world_handle fuel s ops))) p.
+Proof. exact (browser_life_cycles_kernel fuel ops s j b). Qed.
+Print Assumptions C14_life_cycles_kernel.
+
+(* what LC says about each notification *)
+Theorem C14_each_notification ty j p e es p' sg s :
+  LC ty j p (e :: es) p' -> sig_for j e = Some (sg, s) ->
+  type_ok ty s = true /\
+  exists k, names k s /\
+    ((sg = SIG_serviceAdded /\ smap_find k p = None) \/
+     (sg = SIG_serviceUpdated /\ exists old, smap_find k p = Some old /\ service_eqb old s = false) \/
+     (sg = SIG_serviceRemoved /\ exists old, smap_find k p = Some old /\ service_eqb old s = true)).
+Proof. exact (LC_first_signal ty j p e es p' sg s). Qed.
+Print Assumptions C14_each_notification.
+
+Theorem C14_instance_is_name_dot_type k s :
+  In DOT k -> names k s -> k = bs_data (s_name s) ++ DOT :: bs_data (s_type s).
+Proof. exact (names_dotted k s). Qed.
+Print Assumptions C14_instance_is_name_dot_type.
+
+(* non-vacuity: a concrete run with an add, an update and a removal *)
+Example C14_nonvacuous :
+  let ty := [95; 116; 46]%N in let inst := [97; 46; 95; 116; 46]%N in let host := [104; 46]%N in
+  let ptr := set_target (Some inst) (set_ttl 120 (set_type 12 (set_name (Some ty) default_record))) in
+  let srv := fun p t f => set_flush f (set_port p (set_target (Some host) (set_ttl t (set_type 33 (set_name (Some inst) default_record))))) in
+  let resp := fun rs => mkMessage (A4 1) 5353 0 true false [] rs in
+  let ops := [AApi (BNewBrowser (Some ty) None); ADeliver (resp [ptr; srv 80%N 120%N false]);
+              ADeliver (resp [srv 81%N 120%N true]); ADeliver (resp [srv 81%N 0%N true])] in
+  map (fun e => match e with ESig ob sg (PService s) => (ob, sg, s_port s) | _ => (0, 0, 0)%N end)
+      (out_sigs (snd (run_outs world bapi world_handle 10 (mkSim 0 [] 0%N (mkWorld [] [] 0)) ops)))
+  = [(0, SIG_serviceAdded, 80); (0, SIG_serviceUpdated, 81); (0, SIG_serviceRemoved, 81)]%N.
+Proof. vm_compute. reflexivity. Qed.
